@@ -240,6 +240,10 @@ def _gen_evals(r, env, n):
                                    "[('cm' in ayns.cfg), ('nonexistent' in ayns.cfg), bool(ayns.cfg)]", 'sorted(str(k_) for k_ in ayns.cfg)'])]
             else:
                 lines = g.program(max_stmts=r.choice([0, 1, 2, 4, 6]))
+                if r.random() < 0.02:
+                    # user code that recurses without end: a RecursionError is a user exception like any other
+                    lines = ['def rr_(n_):', '    return rr_(n_ + 1) + ca', f'[{lines[-1]}, rr_(0)]']
+                    g.features.add('unbounded_recursion')
                 if r.random() < 0.05:
                     # a string literal holding a character some text APIs treat as a line boundary (Python does not, inside a literal)
                     ch = r.choice(['\x0c', '\x1c', '\x1d', '\x1e', '\x85', '\u2028', '\u2029', '\x0b'])
